@@ -1522,23 +1522,34 @@ class AsType(Elemwise):
     operation = M.astype
     _filter_passthrough = True
 
+    @staticmethod
+    def _cat_dtype_without_categories(dtype):
+        return (
+            isinstance(pd.api.types.pandas_dtype(dtype), pd.CategoricalDtype)
+            and getattr(dtype, "categories", None) is None
+        )
+
+    @functools.cached_property
+    def _infers_categories(self):
+        # The categories are the values of the partition: the result of a row
+        # depends on the other rows
+        dtypes = self.operand("dtypes")
+        dtypes = dtypes.values() if hasattr(dtypes, "items") else [dtypes]
+        return any(self._cat_dtype_without_categories(v) for v in dtypes)
+
     @functools.cached_property
     def _meta(self):
-        def _cat_dtype_without_categories(dtype):
-            return (
-                isinstance(pd.api.types.pandas_dtype(dtype), pd.CategoricalDtype)
-                and getattr(dtype, "categories", None) is None
-            )
-
         meta = super()._meta
         dtypes = self.operand("dtypes")
         if hasattr(dtypes, "items"):
             set_unknown = [
-                k for k, v in dtypes.items() if _cat_dtype_without_categories(v)
+                k
+                for k, v in dtypes.items()
+                if self._cat_dtype_without_categories(v)
             ]
             meta = clear_known_categories(meta, cols=set_unknown)
 
-        elif _cat_dtype_without_categories(dtypes):
+        elif self._cat_dtype_without_categories(dtypes):
             meta = clear_known_categories(meta)
         return meta
 
@@ -2494,7 +2505,9 @@ class Head(Expr):
         raise NotImplementedError()
 
     def _simplify_down(self):
-        if isinstance(self.frame, Elemwise):
+        if isinstance(self.frame, Elemwise) and not (
+            isinstance(self.frame, AsType) and self.frame._infers_categories
+        ):
             operands = [
                 (
                     Head(op, self.n, self.operand("npartitions"))
@@ -2623,7 +2636,11 @@ class Tail(Expr):
     def _simplify_down(self):
         # ResetIndex labels the rows of a partition from 0: the labels of the last
         # rows depend on the rows in front of them
-        if isinstance(self.frame, Elemwise) and not isinstance(self.frame, ResetIndex):
+        if (
+            isinstance(self.frame, Elemwise)
+            and not isinstance(self.frame, ResetIndex)
+            and not (isinstance(self.frame, AsType) and self.frame._infers_categories)
+        ):
             operands = [
                 (
                     Tail(op, self.n)
